@@ -146,7 +146,12 @@ impl Env {
             let mut dirs: Vec<PathBuf> = Vec::with_capacity(targets.len());
             for t in targets.iter() {
                 match t.as_path().parent() {
-                    Some(par) => dirs.push(helpers::abs_path(&cwd, &par).into_owned()),
+                    // Cleaned, as Python's os.path.abspath does: the directory of
+                    // `other/../sub/x` is `sub`, or the spelling of a target would decide
+                    // where the project database is looked for (and created).
+                    Some(par) => dirs.push(
+                        helpers::normpath(&helpers::abs_path(&cwd, &par)).into_owned(),
+                    ),
                     None => {
                         return Err(
                             RedoErrorKind::InvalidTarget(t.as_os_str().to_os_string()).into()
